@@ -496,7 +496,7 @@ fn follow_ups(rep: &mut Report, sc: &Scenario, ctx: &Value, crashed: &Path, cach
     let n = next.len();
     if n > 1 { next[n - 1] = if next[n - 1] == 0 { 1 } else { 0 }; }
     let base_ver = ctx["base"].as_u64().unwrap_or(0) as usize;
-    let mut kinds: Vec<&str> = vec!["same", "next", "newsess"];
+    let mut kinds: Vec<&str> = vec!["same", "next", "newsess", "same/ims-honoured-silently"];
     if base_ver > 0 { kinds.push("stale-cache"); kinds.push("stale-cache/no-etag"); }
     if args.thorough() { kinds.push("kill-again"); }
     for kind in kinds.iter() {
@@ -509,6 +509,8 @@ fn follow_ups(rep: &mut Report, sc: &Scenario, ctx: &Value, crashed: &Path, cach
             "next" => { srv.publish(objects_of(&base_uri, &json!(next))); added = true; }
             "newsess" => { srv.new_session(target as u64 + 1, objects_of(&base_uri, &json!(next))); added = true; }
             // a cache presents the notification of the version the client was synced to once more
+            // a server that sends no validators but answers If-Modified-Since (a copy marked dirty has none to present)
+            "same/ims-honoured-silently" => { srv.set_ims_silently(); }
             "stale-cache" => { srv.announce(idx_of[base_ver - 1]); }
             "stale-cache/no-etag" => { srv.announce(idx_of[base_ver - 1]); srv.set_validators(false, true); }
             "kill-again" => {
